@@ -7,7 +7,8 @@ from .. import common, libdiff, jsonx
 from ..common import coq_string, coq_list
 from . import libcommon
 
-THEOREMS = ["c10_body_routes_to_the_same_method", "c10_executor_builder", "c10_instantiate_builder"]
+THEOREMS = ["c10_body_routes_to_the_same_method", "c10_executor_builder", "c10_instantiate_builder",
+            "c10_translated_instantiate_builder"]
 
 STR = ["", "a", "owner1", "quo\"te", "x y", "unié", "long" * 20]
 
